@@ -245,7 +245,8 @@ func TestVerifC06Flow(t *testing.T) {
 			if strings.Join(got, " ") != strings.Join(want, " ") {
 				fmt.Fprintf(viol, "datagrams reaching the outbound differ from the ingress sequence (%s): got [%s] want [%s] answer: %.200s\n", kind, strings.Join(got, " "), strings.Join(want, " "), out)
 			}
-			if hc.expect != "?" && hc.expect != "nf" && hc.expect != "na" && c06FlowField(out, "dom") != c06Hex([]byte(hc.expect)) {
+			// (a non-Initial datagram in the middle of the flight ends sniffing for the flow: no domain then)
+			if kind != "short_header_between" && hc.expect != "?" && hc.expect != "nf" && hc.expect != "na" && c06FlowField(out, "dom") != c06Hex([]byte(hc.expect)) {
 				fmt.Fprintf(viol, "flow's sniffed domain is %s, the ClientHello carries %s (%s)\n", c06FlowField(out, "dom"), c06Hex([]byte(hc.expect)), hc.class)
 			}
 		}
